@@ -5,7 +5,7 @@
 //!
 //! Output protocol (one line per finding):
 //!   VERIF-WITNESS obligation=<id> input=<...> observed=<...> required=<...>
-//!   VERIF-CASES <n>
+//!   VERIF-CASES fn=resolve_tx n=<n>
 use std::collections::BTreeMap;
 use tx3_tir::encoding::AnyTir;
 use tx3_tir::reduce::ArgValue;
@@ -58,7 +58,7 @@ fn main() {
                         if bf != x.fee || x.fee != lin {
                             witnesses += 1;
                             if witnesses <= 5 {
-                                println!("VERIF-WITNESS obligation=c05_resolver/resolve_tx#loop-ensures-at-exit input=transfer(quantity={quantity}) source_utxo={s} coefficient={a} constant={b} extra={extra:?} max_rounds={max_rounds} observed=body.fee={bf},reported.fee={},len={} required=body.fee==reported.fee=={lin}", x.fee, x.payload.len());
+                                println!("VERIF-WITNESS obligation=c05_resolver/resolve_tx#loop-ensures-at-exit fn=resolve_tx input=transfer(quantity={quantity}) source_utxo={s} coefficient={a} constant={b} extra={extra:?} max_rounds={max_rounds} observed=body.fee={bf},reported.fee={},len={} required=body.fee==reported.fee=={lin}", x.fee, x.payload.len());
                             }
                         }
                     }
@@ -67,6 +67,6 @@ fn main() {
             }
         }
     }
-    println!("VERIF-CASES {cases}");
+    println!("VERIF-CASES fn=resolve_tx n={cases}");
     println!("VERIF-WITNESSES {witnesses}");
 }
